@@ -175,6 +175,7 @@ class Engine:
         self.aligned = aligned
         self.ghosts = 0                          # proposed names nobody listens for
         self.accepted: dict = {}                 # SimConn id -> (user, SimConn) of every connection taken as child
+        self.dial_plan: dict = {}                # peer -> ConnPlan of its next dial (one shot)
         self.stalled = None                      # the server's transport while it does not read
         self.queues: dict = {}                   # party -> last task
         self.own_speed = 0
@@ -292,6 +293,8 @@ class Engine:
 
         def planner(node, host, port, attempt):
             plan = aligned_plan() if self.aligned else ConnPlan(latency=w.net.rng.uniform(0.001, 0.03))
+            if node in self.dial_plan:
+                return self.dial_plan.pop(node)
             name = peer_ports.get(port)
             if node == ME and name is not None:
                 how = self.direct_fail.pop(name, None)
@@ -461,9 +464,31 @@ class Engine:
 
     async def _act_in(self, ev, rec):
         peer = self.peers[ev['peer']]
-        self.abstract.append(f"in:{self.role_of_peer(ev['peer'])}")
+        van = ev.get('vanish')
+        self.abstract.append(f"in:{self.role_of_peer(ev['peer'])}" + (f":vanish:{van['how']}" if van else ''))
         try:
-            await peer.dial(self.h.port, 'D', host=self.w.net.ip_of(ME))
+            if not van:
+                await peer.dial(self.h.port, 'D', host=self.w.net.ip_of(ME))
+                return
+            # the peer disappears right after (or while) sending its PeerInit: whole segments and one fixed latency
+            # equal to the RST/FIN latency, so that the reset can reach the client at the instant of the last init byte
+            from aioslsk.protocol.messages import PeerInit
+            self.dial_plan[peer.name] = aligned_plan()
+            link = await peer.dial(self.h.port, 'D', host=self.w.net.ip_of(ME), init=None)
+            data = PeerInit.Request(peer.name, 'D', 0).serialize()
+            split = van.get('split')
+            if split:
+                link.send_raw(data[:split])
+                await asyncio.sleep(0.003)           # the first part has arrived, the client waits for the rest
+                link.send_raw(data[split:])
+            else:
+                link.send_raw(data)
+            await _gap(van.get('delay') or ['y', 0])
+            if van['how'] == 'abort':
+                link.abort()
+            else:
+                link.close()
+            self.add_obs('in_events_with_vanishing_peer')
         except (ConnectionError, OSError) as exc:
             rec['outcome'] = f'dial failed: {exc!r}'
 
@@ -718,6 +743,7 @@ class Engine:
                              children=[c.username for c in children], **base)
 
         # (a) live connections
+        dead: set = set()
         for role, dp in ([('parent', parent)] if parent is not None else []) + [('child', c) for c in children]:
             pc = dp.connection
             sc = self.simconn_of(pc)
@@ -725,6 +751,7 @@ class Engine:
             ok = (pc.state == ConnectionState.CONNECTED and wr is not None and sc is not None
                   and not sc.a._lost and not sc.b._lost)
             if not ok:
+                dead.add(id(dp))
                 self.violate('parent-or-child-connection-dead', role=role, user=dp.username,
                              state=pc.state.name, has_writer=wr is not None,
                              transport_lost=None if sc is None else [sc.a._lost, sc.b._lost], **base)
@@ -828,7 +855,7 @@ class Engine:
 
         for c, sc in zip(children, child_scs):
             link = self.link_by_simconn(sc)
-            if link is None:
+            if link is None or id(c) in dead:        # a dead child is reported as such, not as badly informed
                 continue
             self.add_obs('position_checks')
             c_lvl, c_root = last(DistributedBranchLevel.Request, link.frames), \
@@ -936,6 +963,10 @@ def gen_c13_events(rng: random.Random, n_peers: int, length: int) -> list:
                     linked.append(p)
         elif k == 'in':
             p = rng.choice(peers)
+            if rng.random() < 0.18:
+                # the peer resets / closes its connection right after (or while) sending its PeerInit
+                evs.append({'e': 'in', 'peer': p, 'vanish': vanish(rng)})
+                continue
             evs.append({'e': 'in', 'peer': p})
             if p not in linked:
                 linked.append(p)
@@ -997,6 +1028,12 @@ def gen_c13_events(rng: random.Random, n_peers: int, length: int) -> list:
                     ev['during'] = during
             evs.append(ev)
     return evs
+
+
+def vanish(rng: random.Random) -> dict:
+    return {'how': rng.choice(['abort', 'abort', 'abort', 'close']),
+            'split': rng.choice([None, None, 4, 5, 9]),            # None: the init frame in one segment
+            'delay': rng.choice([['y', 0], ['y', 0], ['y', 1], ['y', 3], ['t', 0.0005], ['t', 0.001], ['t', 0.003]])}
 
 
 def many_proposals(peer: str, latency: float = 3.0, ghosts=(9, 10, 11)) -> list:
@@ -1079,6 +1116,15 @@ C13_DIRECTED = [
     [_L(4), {'e': 'in', 'peer': 'p1'}, {'e': 'in', 'peer': 'p2'}, {'e': 'in', 'peer': 'p3'}, _L(2)],
     [{'e': 'in', 'peer': 'p1'}, {'e': 'in', 'peer': 'p2'}, _L(0)],
     [{'e': 'in', 'peer': 'p1'}, {'e': 'in', 'peer': 'p2'}, _L(2), {'e': 'pp', 'peers': ['p3']}, _A('p3', 2)],
+    # the peer resets its connection at the instant the last byte of its PeerInit arrives (init in two segments)
+    [{'e': 'in', 'peer': 'p1', 'vanish': {'how': 'abort', 'split': 5, 'delay': ['y', 0]}}, {'e': 'in', 'peer': 'p2'}],
+    [_L(2), {'e': 'in', 'peer': 'p1', 'vanish': {'how': 'abort', 'split': 4, 'delay': ['y', 0]}},
+     {'e': 'in', 'peer': 'p2'}, {'e': 'in', 'peer': 'p3'}],
+    [{'e': 'pp', 'peers': ['p3']}, _A('p3', 1),
+     {'e': 'in', 'peer': 'p1', 'vanish': {'how': 'abort', 'split': 9, 'delay': ['y', 0]}}, _A('p3', 2, order='l')],
+    [{'e': 'in', 'peer': 'p1', 'vanish': {'how': 'abort', 'split': None, 'delay': ['y', 0]}}, {'e': 'in', 'peer': 'p2'}],
+    [{'e': 'in', 'peer': 'p1', 'vanish': {'how': 'close', 'split': None, 'delay': ['y', 0]}}, {'e': 'in', 'peer': 'p2'}],
+    [{'e': 'in', 'peer': 'p1', 'vanish': {'how': 'abort', 'split': 5, 'delay': ['t', 0.001]}}, {'e': 'in', 'peer': 'p2'}],
     # the server link stalls (writes to the server suspend) while the tree changes
     [{'e': 'in', 'peer': 'p3'}, {'e': 'pp', 'peers': ['p1']}, _A('p1', 1), {'e': 'pp', 'peers': ['p2']},
      {'e': 'stall', 'during': [{'e': 'disc', 'peer': 'p1', 'how': 'close'}, _A('p2', 2, root='rootB')]}],
